@@ -54,6 +54,7 @@ type sessCfg struct {
 	stall   time.Duration
 	hardCap time.Duration
 	drain   int
+	hx      string // harness mode of the case ("" = sess), for the rerun line
 	// hist mode: further Run calls on the SAME connected Network, in this
 	// order at every party (cfg.pc / cfg.inputs are the first call)
 	more []*histStep
@@ -442,7 +443,7 @@ func circuitNeed(c *circuit.Circuit) (need int, batches []int) {
 	nl := int(c.Stats[circuit.NumLevels]) + 1
 	cnt := make([]int, nl)
 	for _, g := range c.Gates {
-		if g.Op == circuit.AND {
+		if g.Op == circuit.AND && int(g.Level) < nl {
 			cnt[g.Level]++
 		}
 	}
